@@ -104,3 +104,30 @@ def enqueue_before_anything_can_fail(ck, rule):
           "an exception of an output event can leave set_output after the write but before the "
           "block is queued: the change is stored but never propagated to connected blocks", so,
           ws[0].ast, witness=path_witness(g, wit))
+
+
+def stop_data_condition(ck, rule):
+    """The documented condition for the final run is `stop_data is not None`: an EMPTY mapping is
+    stop data too (a coroutine / function without arguments).  Every use of self._stop_data as the
+    data of the final run is guarded by the identity test, not by truthiness."""
+    want = canon_fact(ast.parse('self._stop_data is not None', mode='eval').body, True)
+    n = 0
+    for fid in ('blocklib.sblocks2:OutputAsync.stop', 'blocklib.sblocks2:OutputAsync.stop_async',
+                'blocklib.sblocks2:OutputFunc.stop'):
+        fi = ck.prog.func(fid)
+        g = ck.cfg(fid, 'M0')
+        uses = nodes_where(g, lambda m: any(
+            call_name(c) in ('_event_put', '_output_coro_wrapper') and
+            any('self._stop_data' in norm(a) for a in list(c.args) + [k.value for k in c.keywords])
+            for c in node_calls(m)))
+        for u in uses:
+            n += 1
+            facts = {canon_fact(e, p_) for e, p_ in g.guards(u)}
+            truthy = canon_fact(ast.parse('self._stop_data', mode='eval').body, True) in facts
+            ok = want in facts and not truthy
+            ck.ob(rule, f"{fid} :: stop_data used iff it is not None", ok,
+                  "the final run is guarded by `self._stop_data is not None`" if ok else
+                  "the final run with stop_data is guarded by the truth value of stop_data (or not "
+                  "at all): an empty mapping - the natural stop_data of a coroutine without "
+                  "arguments - is silently skipped", fi, u.ast)
+    ck.need(rule, n >= 3, f"only {n} uses of self._stop_data as final-run data found (3 expected)")
